@@ -1,10 +1,236 @@
 package main
 
 import (
-	_ "golang.org/x/text/unicode/norm"
-	_ "golang.org/x/tools/go/packages"
-	_ "golang.org/x/tools/go/ssa"
-	_ "golang.org/x/tools/go/ssa/ssautil"
+	"flag"
+	"fmt"
+	"os"
+	"path/filepath"
+	"sort"
+	"strings"
+	"sync"
+	"time"
 )
 
-func main() {}
+var (
+	verifDir = envOr("VERIF_DIR", "/verif")
+	repoDir  = envOr("VERIF_REPO", "/repo")
+)
+
+func envOr(k, d string) string {
+	if v := os.Getenv(k); v != "" {
+		return v
+	}
+	return d
+}
+
+func main() {
+	if len(os.Args) < 2 {
+		fmt.Fprintln(os.Stderr, "usage: bipverif vc|check|ground|frame ...")
+		os.Exit(2)
+	}
+	switch os.Args[1] {
+	case "vc":
+		cmdVC(os.Args[2:])
+	case "check":
+		cmdCheck(os.Args[2:])
+	default:
+		fmt.Fprintln(os.Stderr, "unknown command", os.Args[1])
+		os.Exit(2)
+	}
+}
+
+// loadAll loads the program and its contracts.
+func loadAll() (*Program, error) {
+	t0 := time.Now()
+	p, err := LoadProgram(repoDir)
+	if err != nil {
+		return nil, err
+	}
+	files := contractFiles(repoDir)
+	if len(files) == 0 {
+		// fall back to the mirror kept in /verif (a tree without the hook commit)
+		m, _ := filepath.Glob(filepath.Join(verifDir, "contracts", "verif_contracts*.go"))
+		files = m
+	}
+	c, err := LoadContracts(files)
+	if err != nil {
+		return nil, err
+	}
+	p.Contracts = c
+	p.loadSecs = time.Since(t0).Seconds()
+	return p, nil
+}
+
+// generate runs the VC generator over init and every function of the package
+// that has a contract (and reports functions without one).
+func (p *Program) generate(only string) []*Obligation {
+	var obls []*Obligation
+	if only == "" || only == "init" {
+		obls = append(obls, p.runInit()...)
+	} else {
+		p.runInit()
+	}
+	var fns []string
+	byName := map[string]*ssaFn{}
+	for _, f := range p.allFunctions() {
+		n := p.contractName(f.fn)
+		byName[n] = f
+		fns = append(fns, n)
+	}
+	sort.Strings(fns)
+	seen := map[string]bool{}
+	for _, n := range fns {
+		seen[n] = true
+		if only != "" && only != n {
+			continue
+		}
+		f := byName[n]
+		fc := p.Contracts.Funcs[n]
+		if fc == nil {
+			if f.verifOnly {
+				continue
+			}
+			obls = append(obls, &Obligation{Name: n + "/contract/missing", Fn: n, Kind: "contract", Failed: true,
+				Reason: "function has no contract", Expect: "unsat", Tags: []string{"C14"}})
+			continue
+		}
+		ex := p.newExec(f.fn, fc)
+		ex.run()
+		obls = append(obls, ex.obls...)
+	}
+	// lemmas and orphans
+	for _, n := range p.Contracts.Order {
+		fc := p.Contracts.Funcs[n]
+		if only != "" && only != n {
+			continue
+		}
+		if fc.Lemma {
+			obls = append(obls, p.runLemma(fc)...)
+			continue
+		}
+		if !seen[n] && n != "init" {
+			obls = append(obls, &Obligation{Name: n + "/contract/orphan", Fn: n, Kind: "contract", Failed: true,
+				Reason: "contract names a function that does not exist", Expect: "unsat"})
+		}
+	}
+	return obls
+}
+
+func solveAll(obls []*Obligation, timeoutS int, all bool, workDir string) {
+	var wg sync.WaitGroup
+	sem := make(chan struct{}, 16)
+	for _, o := range obls {
+		if o.Trivial || o.Failed || o.Script == "" {
+			continue
+		}
+		wg.Add(1)
+		go func(o *Obligation) {
+			defer wg.Done()
+			sem <- struct{}{}
+			defer func() { <-sem }()
+			file := filepath.Join(workDir, smtName(o.Name)+".smt2")
+			o.Result = Solve(o.Script, file, timeoutS, all, false)
+			if o.Expect == "unsat" && o.Result.Status != "unsat" && o.Result.Status != "sat" {
+				// counterexample mode: quantifier-free relaxation, only to obtain a candidate model
+				cf := filepath.Join(workDir, smtName(o.Name)+".cex.smt2")
+				o.Cex = Solve(cexScript(o.Script), cf, 5, false, false)
+			}
+		}(o)
+	}
+	wg.Wait()
+}
+
+// cexScript drops every quantified assertion except the (negated) goal.
+func cexScript(script string) string {
+	cmds := splitCommands(script)
+	last := -1
+	for i, c := range cmds {
+		if strings.HasPrefix(c, "(assert") {
+			last = i
+		}
+	}
+	var b strings.Builder
+	for i, c := range cmds {
+		if i != last && strings.HasPrefix(c, "(assert") && (strings.Contains(c, "(forall ") || strings.Contains(c, "(exists ")) {
+			continue
+		}
+		b.WriteString(c)
+		b.WriteByte('\n')
+	}
+	return b.String()
+}
+
+// model returns the candidate counterexample (from the full query or from
+// the quantifier-free relaxation).
+func (o *Obligation) model() (map[string]string, string) {
+	if o.Result.Status == "sat" && len(o.Result.Model) > 0 {
+		return o.Result.Model, "sat"
+	}
+	if o.Cex.Status == "sat" && len(o.Cex.Model) > 0 {
+		return o.Cex.Model, "sat(quantifier-free relaxation)"
+	}
+	return nil, ""
+}
+
+func (o *Obligation) ok() bool {
+	if o.Failed {
+		return false
+	}
+	if o.Trivial {
+		return true
+	}
+	if o.Expect == "sat" {
+		// cover: must not be unsat (sat or unknown both show the assumptions are not refuted)
+		return o.Result.Status != "unsat" && o.Result.Status != "error"
+	}
+	return o.Result.Status == "unsat"
+}
+
+func cmdVC(args []string) {
+	fs := flag.NewFlagSet("vc", flag.ExitOnError)
+	only := fs.String("fn", "", "only this function")
+	timeout := fs.Int("t", 10, "solver timeout (s)")
+	verbose := fs.Bool("v", false, "verbose")
+	lists := fs.Bool("lists", true, "admit list axioms")
+	_ = fs.Parse(args)
+	p, err := loadAll()
+	if err != nil {
+		fmt.Fprintln(os.Stderr, "load:", err)
+		os.Exit(2)
+	}
+	p.listsOK = *lists
+	t0 := time.Now()
+	obls := p.generate(*only)
+	fmt.Printf("load %.1fs, generate %.1fs, %d obligations\n", p.loadSecs, time.Since(t0).Seconds(), len(obls))
+	work := filepath.Join(verifDir, "work", "vc")
+	_ = os.MkdirAll(work, 0o755)
+	t1 := time.Now()
+	solveAll(obls, *timeout, false, work)
+	bad := 0
+	for _, o := range obls {
+		st := o.Result.Status
+		if o.Failed {
+			st = "FAILED(" + o.Reason + ")"
+		}
+		mark := "ok  "
+		if !o.ok() {
+			mark = "FAIL"
+			bad++
+		}
+		if *verbose || !o.ok() {
+			fmt.Printf("%s %-90s %-8s %-10s %.2fs [%s] %s\n", mark, o.Name, st, o.Result.Solver, o.Result.TimeS, strings.Join(o.Tags, ","), o.Pos)
+			if !o.ok() && o.Result.Status == "error" {
+				fmt.Println("     ", trunc(o.Result.Output, 400))
+			}
+		}
+	}
+	fmt.Printf("solve %.1fs; %d/%d ok\n", time.Since(t1).Seconds(), len(obls)-bad, len(obls))
+	if bad > 0 {
+		os.Exit(1)
+	}
+}
+
+func cmdCheck(args []string) {
+	fmt.Fprintln(os.Stderr, "check: not implemented yet")
+	os.Exit(2)
+}
